@@ -43,6 +43,10 @@ def Data.optDec : Data → Option Data
 def kMap (f : Fn) : Kernel Unit :=
   { init := (), onNext := fun _ x => ((), [.emit (f.app x)]), enc := fun _ => .unit, dec := fun _ => () }
 
+/-- `map(|x| Some(x))`, the first half of `with_end` in src/operators/sequence_equal.rs -/
+def kSome : Kernel Unit :=
+  { init := (), onNext := fun _ x => ((), [.emit (Data.optEnc (some x))]), enc := fun _ => .unit, dec := fun _ => () }
+
 def kFilter (p : Pred) : Kernel Unit :=
   { init := (), onNext := fun _ x => ((), if p.app x then [.emit x] else []),
     enc := fun _ => .unit, dec := fun _ => () }
